@@ -22,7 +22,7 @@ Every op that the dispatcher may or may not guard carries the generator's INDEPE
 Nothing in this file looks at snaxc.util.dispatching_rules.
 
 API
-    prog = gen_program(rng, sync_ops=False, dealloc=False, xdma=True, multi_block=True)  -> CoresProgram
+    prog = gen_program(rng, sync_ops=False, dealloc=False, xdma=True, multi_block=True, helper=True)  -> CoresProgram
     vecs = input_vectors(prog, rng, n)      -> list of {"n0":..,"n1":..,"b0":..,"b1":..}
     CoresProgram.ops                        -> [{"id", "kind", "depth", "reads": [ssa names], "writes": [ssa names]}] in emission order
     ARG_NAMES                               -> argument names in signature order (memrefs first)
@@ -315,42 +315,80 @@ class _G:
         return out
 
 
-def gen_program(rng, sync_ops=False, dealloc=False, xdma=True, multi_block=True) -> CoresProgram:
-    g = _G(rng, sync_ops, dealloc, xdma)
-    bufs = [Buf("%" + n, t, "8x8" if t == T2 else "16", False, 0, "%" + n) for n, t in MEM_ARGS.items()]
-    scope = {"bufs": bufs, "idx": ["%n0", "%n1"], "small_idx": [], "local": set()}
+def _body(g, rng, scope, mb):
+    """Body lines of one function (single block, or several blocks when `mb`)."""
     ind = "  "
-    mb = multi_block and rng.random() < 0.18
     body = []
     if not mb:
         body += g.seq(scope, ind, 0, rng.choice([2, 3, 4, 5, 6, 8]))
         body.append("  func.return")
+        return body
+    g.features.add("multi-block")
+    body += g.seq(scope, ind, 0, rng.choice([1, 2, 3]))
+    if rng.random() < 0.5:
+        body.append("  cf.br ^bb1")
+        body.append("^bb1:")
+        g.skel.append("|br|")
+        body += g.seq(scope, ind, 0, rng.choice([1, 2, 3, 4]))
+        body.append("  func.return")
     else:
-        g.features.add("multi-block")
+        body.append(f"  cf.cond_br {rng.choice(['%b0', '%b1'])}, ^bb1, ^bb2")
+        body.append("^bb1:")
+        g.skel.append("|cbr(")
+        body += g.seq(g.sub(scope), ind, 0, rng.choice([1, 2, 3]))
+        body.append("  cf.br ^bb3")
+        body.append("^bb2:")
+        g.skel.append(")(")
+        body += g.seq(g.sub(scope), ind, 0, rng.choice([1, 2, 3]))
+        body.append("  cf.br ^bb3")
+        body.append("^bb3:")
+        g.skel.append(")|")
         body += g.seq(scope, ind, 0, rng.choice([1, 2, 3]))
-        if rng.random() < 0.5:
-            body.append("  cf.br ^bb1")
-            body.append("^bb1:")
-            g.skel.append("|br|")
-            body += g.seq(scope, ind, 0, rng.choice([1, 2, 3, 4]))
-            body.append("  func.return")
-        else:
-            body.append(f"  cf.cond_br {rng.choice(['%b0', '%b1'])}, ^bb1, ^bb2")
-            body.append("^bb1:")
-            g.skel.append("|cbr(")
-            body += g.seq(g.sub(scope), ind, 0, rng.choice([1, 2, 3]))
-            body.append("  cf.br ^bb3")
-            body.append("^bb2:")
-            g.skel.append(")(")
-            body += g.seq(g.sub(scope), ind, 0, rng.choice([1, 2, 3]))
-            body.append("  cf.br ^bb3")
-            body.append("^bb3:")
-            g.skel.append(")|")
-            body += g.seq(scope, ind, 0, rng.choice([1, 2, 3]))
-            body.append("  func.return")
+        body.append("  func.return")
+    return body
+
+
+def _fresh_scope():
+    bufs = [Buf("%" + n, t, "8x8" if t == T2 else "16", False, 0, "%" + n) for n, t in MEM_ARGS.items()]
+    return {"bufs": bufs, "idx": ["%n0", "%n1"], "small_idx": [], "local": set()}
+
+
+def gen_program(rng, sync_ops=False, dealloc=False, xdma=True, multi_block=True, helper=True) -> CoresProgram:
+    """One module: @main (the function to execute), optionally (12%, `helper`) a second function @helper with the same
+    signature that @main calls once, optionally (3%) an already present declaration of @snax_cluster_core_idx."""
+    g = _G(rng, sync_ops, dealloc, xdma)
+    mb = multi_block and rng.random() < 0.18
     sig = ", ".join([f"%{n} : {t}" for n, t in MEM_ARGS.items()] + ["%n0 : index", "%n1 : index", "%b0 : i1", "%b1 : i1"])
-    consts = [f"  %c{k} = arith.constant {k} : index" for k in sorted(g.consts)]
-    text = "func.func @main(" + sig + ") {\n" + "\n".join(consts + body) + "\n}\n"
+    types = ", ".join(list(MEM_ARGS.values()) + ["index", "index", "i1", "i1"])
+    names = ", ".join("%" + n for n in ARG_NAMES)
+    funcs = []
+    call = []
+    if helper and rng.random() < 0.12:
+        g.features.add("helper-function")
+        g.skel.append("helper{")
+        hbody = _body(g, rng, _fresh_scope(), False)
+        g.skel.append("}")
+        hconsts = sorted(g.consts)
+        g.consts = set()
+        funcs.append((" @helper", hconsts, hbody))
+        call = [f"  func.call @helper({names}) : ({types}) -> ()"]
+    body = _body(g, rng, _fresh_scope(), mb)
+    if call:
+        # the call sits in the entry block, at a random position before its terminator
+        entry_end = next(i for i, l in enumerate(body) if l.lstrip().startswith(("cf.", "func.return")))
+        pos = rng.randrange(0, entry_end + 1)
+        # never split a multi-line op: insert only in front of a line that starts an op at top-level indentation
+        while pos < entry_end and not (body[pos].startswith("  ") and not body[pos].startswith("   ") and not body[pos].startswith("  ^") and not body[pos].startswith("  }")):
+            pos += 1
+        body[pos:pos] = call
+    funcs.append((" @main", sorted(g.consts), body))
+    text = ""
+    for name, consts, b in funcs:
+        cl = [f"  %c{k} = arith.constant {k} : index" for k in consts]
+        text += "func.func" + name + "(" + sig + ") {\n" + "\n".join(cl + b) + "\n}\n"
+    if rng.random() < 0.03:  # (the pass crashes on these under xDSL 0.70: counted as rejections)
+        g.features.add("core-idx-already-declared")
+        text += "func.func private @snax_cluster_core_idx() -> i32\n"
     return CoresProgram(text, "main", g.ops, g.features, "".join(g.skel), mb)
 
 
